@@ -24,7 +24,7 @@ CONSTANTS Depth, Shard, NShards
 
 ---------------------------------------------------------------------------
 (* atoms: 2 per scalar type; 1 == 1.0 == True are the numeric look-alikes *)
-I0 == Int(0)    I1 == Int(1)    I2 == Int(2)      \* I0 is used as an index label only
+I0 == IntV(0)    I1 == IntV(1)    I2 == IntV(2)      \* I0 is used as an index label only
 BT == Bool(TRUE)   BF == Bool(FALSE)
 F1 == Float(2)     F25 == Float(5)                \* 1.0 and 2.5
 Sa == Str("a")     Sb == Str("b")
@@ -42,7 +42,7 @@ Body1(KS, WS) == {<<Pair(k, x)>> : k \in KS, x \in WS}
 Body2(KS, WS) == {<<Pair(k1, x1), Pair(k2, x2)>> : k1 \in KS, k2 \in KS, x1 \in WS, x2 \in WS}
 Bodies(K1, KS, WS) == Len0 \cup Body1(K1, WS)
                       \cup {p \in Body2(KS, WS) : ~PyEqual(p[1].a[1], p[2].a[1])}
-IntSeq(q) == IF q = <<>> THEN <<>> ELSE [i \in DOMAIN q |-> Int(q[i])]
+IntSeq(q) == IF q = <<>> THEN <<>> ELSE [i \in DOMAIN q |-> IntV(q[i])]
 
 ---------------------------------------------------------------------------
 (* depth 1 *)
@@ -59,7 +59,7 @@ D1Map   == {Dict(p) : p \in Bodies(KP1, KP, WP)}
            \cup {DefaultDict("int", p) : p \in Bodies(KP, KP, WP)}
            \cup {DefaultDict("list", p) : p \in Len0 \cup Body1(KP, WP)}
            \cup {Counter(p) : p \in Bodies(KP1, KP, {I1, I2})}
-D1Bytes == {ByteArray(q) : q \in UpTo2({Int(97), Int(98)})}
+D1Bytes == {ByteArray(q) : q \in UpTo2({IntV(97), IntV(98)})}
            \cup {PyArray(tc, q) : tc \in {"i", "l"}, q \in UpTo2({I1, I2})}
 
 Shapes == {<<>>, <<0>>, <<1>>, <<2>>, <<1, 1>>, <<1, 2>>, <<2, 1>>}
@@ -107,7 +107,7 @@ WP2 == {L12, I1}
 D2Map == {Dict(p) : p \in Bodies(KP2, KP2, WP2)} \cup {OrderedDict(p) : p \in Bodies(KP2, KP2, WP2)}
          \cup {Dict(<<Pair(Sa, x)>>) : x \in P2} \cup {DefaultDict("list", <<Pair(Sa, x)>>) : x \in {L12, List(<<>>)}}
 
-D2Arr == {NdArray("|O", <<Int(Len(q))>>, q) : q \in Len1({I1, Sa, L12, List(<<I1>>), T12}) \cup Len2({I1, Sa, L12, List(<<I1>>), T12})}
+D2Arr == {NdArray("|O", <<IntV(Len(q))>>, q) : q \in Len1({I1, Sa, L12, List(<<I1>>), T12}) \cup Len2({I1, Sa, L12, List(<<I1>>), T12})}
 
 Dab == Dict(<<Pair(Sa, I1), Pair(Sb, I2)>>)     Dba == Dict(<<Pair(Sb, I2), Pair(Sa, I1)>>)
 D2Obj == {Obj(c, <<x, I1>>) : c \in {"PA", "PB"},
@@ -135,8 +135,10 @@ Expect(i) == [i      |-> i,
               eq     |-> {j \in 1..N : Eq(U[i], U[j])},              \* expected pattern (the oracle)
               dc     |-> {j \in 1..N : DontCare(U[i], U[j])},
               native |-> ~HasObj(U[i]),                              \* natively handled: same key in every process
+              asis_fs |-> HasAsIsFrozenSet(U[i]),                    \* pickle of the key may follow iteration order
               mprob  |-> PC[i],                                      \* the scheme as coded: where it is not total ...
-              mkc    |-> IF PC[i] = {} THEN {j \in 1..N : PC[j] = {} /\ KC[j] = KC[i]} ELSE {}]   \* ... and its key classes
+              mkc    |-> IF PC[i] = {} THEN {j \in 1..N : PC[j] = {} /\ KC[j] = KC[i]} ELSE {},   \* ... and its key classes
+              mkr    |-> {j \in 1..N : KR[j] = KR[i]}]                \* key classes of the repaired scheme
 Init == /\ case \in {i \in 1..N : i % NShards = Shard}
         /\ out = Expect(case)
 Next == UNCHANGED <<case, out>>
@@ -155,7 +157,9 @@ InvEqRefinesPy == \A j \in out.eq : PyEqual(U[case], U[j])
 InvRepairedTotal    == PR[case] = {}
 InvRepairedSound    == \A j \in 1..N : KR[j] = KR[case] => j \in out.eq \cup out.dc
 InvRepairedComplete == \A j \in out.eq \ out.dc : KR[j] = KR[case]
-InvLawsAsOperators  == Depth >= 2 \/ \A j \in 1..N : KeySound(U[case], U[j], Repaired) /\ KeyComplete(U[case], U[j], Repaired)
+(* the same two laws exactly as stated in HashKey (no cached arrays), on every LawStride-th case *)
+LawStride == IF Depth >= 2 THEN 16 ELSE 4
+InvLawsAsOperators  == (case % LawStride # 0) \/ \A j \in 1..N : KeySound(U[case], U[j], Repaired) /\ KeyComplete(U[case], U[j], Repaired)
 
 (* export: the expected pattern, and where the scheme AS CODED is not total / sound / complete *)
 Emit == /\ PrintT(<<"VAL", ToJson(out)>>)
